@@ -130,7 +130,7 @@ def run(sc):
           elif ni != min(L, ns):
             viols.append({"class": dict(cls, oracle="niter_not_min_of_limit_and_need"), "detail": det})
           if bit != (L < ns):
-            viols.append({"class": dict(cls, oracle="iteration_bit_wrong", "bit_reported": bit), "detail": det})
+            viols.append({"class": dict(cls, oracle="iteration_bit_wrong", bit_reported=bit), "detail": det})
           if L >= ns:
             for f in FIELDS + ["efc.force"]:
               a = got["efc"]["force"][w, : int(got["nefc"][w])] if f == "efc.force" else got[f][w]
